@@ -781,7 +781,8 @@ def r17_2_key_named(ctx):
                 a0 = norm(c.args[0])
                 loopvars = set()
                 for lo in enclosing_loops(c, fi.node):
-                    if isinstance(lo, ast.For):
+                    # in the `else:` of a loop the loop variable holds whatever alternative was tried last, not the attribute
+                    if isinstance(lo, ast.For) and any(x is c for st in lo.body for x in ast.walk(st)):
                         loopvars |= {x.id for x in ast.walk(lo.target) if isinstance(x, ast.Name)}
                 r.check(a0 in loopvars, '%s: %s(%s, ..) names the attribute under judgement' % (fi.qual, call_name(c), a0),
                         '%s:diagnose-arg:%s' % (fi.key, call_name(c)), fi.loc(c), '%s is called with %s, not the attribute/key being checked' % (call_name(c), a0))
